@@ -359,6 +359,18 @@ Print Assumptions C18_onproc_verdict_model_accepted.
 Print Assumptions C18_api_verdict_model_accepted.
 Print Assumptions C18_validate_iff.
 Print Assumptions C18_api_send_error_row_from_model.
+(** the stream assumption made explicit (the only place the Pub/Sub enters): if a listener is handed
+    only notifications the handler side published for some delivery, every non-final reply a caller
+    reads is the result and error text of a delivery of its OWN command *)
+Theorem C18_replies_are_own_deliveries : forall dec enc c deliveries stream ls r,
+  (forall x p, enc x = Some p -> dec p = Some x) ->
+  stream_from_deliveries enc deliveries stream ->
+  In r (got (lrun (unm_json dec) c (linit stream) ls)) ->
+  is_final r = true \/
+  exists pc i, In (pc, i) deliveries /\ p_op i = opid c /\ r = ROwn (p_res i) (p_err i) (p_nid i).
+Proof. exact replies_are_own_deliveries. Qed.
+Print Assumptions C18_replies_are_own_deliveries.
+
 Print Assumptions C18_only_own_replies.
 Print Assumptions C18_replies_do_not_cross.
 Print Assumptions C18_listener_safe.
